@@ -620,6 +620,10 @@ fn c19_roundtrip(ctx: &Ctx, sub: &'static str, n: u64, out: &mut Outcome) {
                 };
                 out.violation(sig, format!("{d}; document:\n{text}"), rp());
             }
+            if sub == "alphabits" {
+                // this sub-workload is about clause (a) only
+                return;
+            }
         } else {
             out.count("nan_alpha_roundtrips");
             if !matches!(back.subframe_coding.qlpc.window, Window::Tukey { alpha } if alpha.is_nan()) {
@@ -925,7 +929,7 @@ fn history_pool(rng: &mut Rng) -> Vec<Case> {
             let pos = rng.usize_below(len.min(block)) * channels + rng.usize_below(channels);
             samples[pos] = if bps < 24 { 1 << (bps - 1) } else { i32::MAX };
         }
-        let mut cfg = gen::gen_config(rng, &ConfigOpts { multithread: Some(false), min_max_parameter: 0 });
+        let mut cfg = gen::gen_config(rng, &ConfigOpts { multithread: Some(false), min_max_parameter: 0, no_experimental: false });
         cfg.multithread = rng.chance(1, 5);
         cfg.workers = NonZeroUsize::new(1 + rng.usize_below(3));
         cfg.subframe_coding.use_lpc = rng.chance(4, 5);
@@ -1253,7 +1257,7 @@ pub fn mini_c10(ctx: &Ctx, scale: u64, out: &mut Outcome) {
             let len = block + rng.usize_below(block);
             let fam = if i % 2 == 0 { "noise_full" } else { "tiny_noise" };
             let a = gen::gen_audio_family(&mut rng, channels, bps, 44100, len, fam);
-            let mut cfg = gen::gen_config(&mut rng, &ConfigOpts { multithread: Some(false), min_max_parameter: 4 });
+            let mut cfg = gen::gen_config(&mut rng, &ConfigOpts { multithread: Some(false), min_max_parameter: 4, no_experimental: false });
             cfg.subframe_coding.qlpc.lpc_order = cfg.subframe_coding.qlpc.lpc_order.min(6);
             cfg.subframe_coding.qlpc.window = Window::Tukey { alpha: *rng.pick(&alphas) };
             cfg.block_size = block;
